@@ -8,12 +8,12 @@ use std::fmt;
 const SPEC: Spec = Spec {
     id: "C17",
     engine: "E-prod (exhaustive enumeration of values through a recording Serializer, and of token sequences x size hints x sign tokens through a token-replay Deserializer; serde_json as a second, real format)",
-    rule: "serialize: every value of +-Dense(S32,3) must emit exactly seq(len = number of base-2^32 digits){u32...} without trailing zero digit (zero = empty sequence), BigInt as tuple(2){i8 sign in -1/0/1, that sequence}; deserialize: every u32 sequence over {0,1,2^32-1} up to the length bound x 5 size-hint behaviours (x 7 sign tokens for BigInt) must yield the canonical value it denotes, invalid signs and ill-typed elements must be rejected with an error (no panic); deserialize(serialize(x)) == x through the recorder and through serde_json; non-trivial = value >= 2^32 (serialize) / sequence with trailing zeros, odd length or inconsistent sign (deserialize)",
+    rule: "serialize: every value of +-Dense(S32,3) must emit exactly seq(len = number of base-2^32 digits){u32...} without trailing zero digit (zero = empty sequence), BigInt as tuple(2){i8 sign in -1/0/1, that sequence}; deserialize: every u32 sequence over {0,1,2^32-1} up to the length bound x 5 size-hint behaviours (x all 256 i8 sign tokens for BigInt) must yield the canonical value it denotes, invalid signs and ill-typed elements must be rejected with an error (no panic); deserialize(serialize(x)) == x through the recorder and through serde_json; non-trivial = value >= 2^32 (serialize) / sequence with trailing zeros, odd length or inconsistent sign (deserialize)",
     assumptions: &[
         "token sequences are bounded in length; the 3-letter word alphabet {0,1,2^32-1} generates trailing zeros, odd/even lengths and full high halves",
         "two formats: the harness's own recorder/replayer (exact token-level control incl. absent or wrong size hints) and serde_json",
     ],
-    bounds_quick: "S +-Dense(S32,3); D1 u32 sequences of length <= 7 x 5 size hints; D2 length <= 5 x 7 sign tokens x 5 hints; D3 ill-typed elements; J serde_json round trips and JSON texts with trailing zeros",
+    bounds_quick: "S +-Dense(S32,3); D1 u32 sequences of length <= 7 x 5 size hints; D2 length <= 5 x all 256 i8 sign tokens x 5 hints; D3 ill-typed elements; J serde_json round trips and JSON texts with trailing zeros",
     bounds_thorough: "S +-Dense(S32,3) + patterns up to 40 digits; D1 length <= 9; D2 length <= 7; D3; J",
     hang_secs: 60,
     probes: None,
@@ -399,7 +399,7 @@ fn de_words(ctx: &mut Ctx, w: &[u32], signs: bool) {
             if !signs {
                 continue;
             }
-            for s in [-1i8, 0, 1, 2, -2, 127, -128] {
+            for s in i8::MIN..=i8::MAX {
                 ctx.case();
                 let mut t = vec![Tok::Tuple(2), Tok::I8(s)];
                 t.extend(toks.clone());
@@ -518,7 +518,7 @@ fn body(ctx: &mut Ctx) {
                 let w: Vec<u32> = idx.iter().map(|&i| syms[i]).collect();
                 de_words(ctx, &w, true);
                 if o % 101 == 0 {
-                    ctx.sample(|| format!("(sign, {:x?}) for sign in {{-1,0,1,2,-2,127,-128}} x 5 size hints -> BigInt", w));
+                    ctx.sample(|| format!("(sign, {:x?}) for every i8 sign token x 5 size hints -> BigInt", w));
                 }
             });
         }
